@@ -680,13 +680,19 @@ class Spectrum(Generic[_TData]):
                     "input spectrum", spectrum.dtype, "spectrum", self.dtype
                 )
 
-        self._increase_capacity(sum(spectrum.sample_count for spectrum in spectrums))
+        # Take the samples to append before this spectrum changes: it may appear in its own list
+        # of sources, and its sample_count and buffer change below.
+        chunks = [
+            spectrum.data.copy() if spectrum is self else spectrum.data for spectrum in spectrums
+        ]
+
+        self._increase_capacity(sum(len(chunk) for chunk in chunks))
 
         offset = self._start_index + self._sample_count
-        for spectrum in spectrums:
-            self._data[offset : offset + spectrum.sample_count] = spectrum.data
-            offset += spectrum.sample_count
-            self._sample_count += spectrum.sample_count
+        for spectrum, chunk in zip(spectrums, chunks):
+            self._data[offset : offset + len(chunk)] = chunk
+            offset += len(chunk)
+            self._sample_count += len(chunk)
             self._extended_properties._merge(spectrum._extended_properties)
 
     def _increase_capacity(self, amount: int) -> None:
